@@ -85,7 +85,7 @@ pub fn run(ctx: &mut Ctx) {
     ctx.rule = "10 derived types of the zoo (all primitive widths, char, strings, bytes, Option incl. Option of containers and of enums, Vec, arrays, tuples, newtype / unit / tuple structs, enums with unit / newtype / tuple / struct variants, all-unit and single-variant enums, string-keyed maps, rename / rename_all / default / skip_serializing_if / transparent) x the 16 combinations of the options that change physical types (sequence_as_large_list, strings_as_large_utf8, string_dictionary_encoding, enums_without_data_as_strings; maps as maps) x covering + random values (and the empty batch): schema traced from the type, written through to_marrow, to_arrow, to_record_batch, to_arrow2, ArrayBuilder row by row and the Serializer wrapper, read back with from_marrow / from_arrow / from_record_batch / from_arrow2 and compared with PartialEq; borrowed targets (&str, &[u8]) on the string and bytes columns; the arrays of every case are judged inside Coq by the C01 oracle (decode = interp of the recorded serde calls). Exclusions as in the property: None for an Option<enum> mapped to a union (such types only run with enums_without_data_as_strings)".into();
     type_cases::<zoo::Prims>(ctx, false); type_cases::<zoo::Nested>(ctx, false); type_cases::<zoo::Wrappers>(ctx, false); type_cases::<zoo::Enums>(ctx, false);
     type_cases::<zoo::UnitEnums>(ctx, false); type_cases::<zoo::Maps>(ctx, false); type_cases::<zoo::Attrs>(ctx, false); type_cases::<zoo::Deep>(ctx, false);
-    type_cases::<zoo::OptEnums>(ctx, true);
+    type_cases::<zoo::OptEnums>(ctx, true); type_cases::<zoo::KeyMaps>(ctx, true);
     // borrowed targets
     let idx = ser_case(ctx, &[], &[], "borrowed", None);
     let f = vec![Field { name: "item".into(), data_type: marrow::datatypes::DataType::LargeUtf8, nullable: false, metadata: Default::default() }];
